@@ -333,6 +333,43 @@ def checkpoint_rejected(sc, o):
     return bad
 
 
+def grace_sleep_pause_scenarios(rng, n):
+    """a deferred pause is pending; while _checkpoint sits in its 0.5 s grace sleep (arrival 'ckpt') an IMMEDIATE pause
+    request arrives (the documented second Ctrl+C): the engine pauses AT the checkpoint and the resume replays nothing"""
+    import engine_impl as EI
+
+    out = []
+    for _ in range(n):
+        k = rng.randrange(1, 4)
+        body = [M("open_run"), M("checkpoint")] + [M("null") for _ in range(k)] + [M("set", "m1", 1, group="g"), M("wait", None, group="g"), M("checkpoint"), M("null"), M("null"), M("close_run")]
+        base = {"record_interruptions": rng.random() < 0.5, "devices": {"m1": {"kind": "motor"}}, "plan": seq(*body), "script": {"2": [{"a": "pause", "defer": True}]},
+                "decisions": ["resume"] * 3 + ["halt"], "max_arrivals": 200}
+        probe = EI.run_scenario(number(copy.deepcopy(base)))
+        ck = [i for i, a in enumerate(probe["arrivals"]) if a == "ckpt"]
+        if not ck:
+            continue
+        sc = copy.deepcopy(base)
+        sc["script"][str(ck[0])] = [{"a": "pause", "defer": False}]
+        sc.update(tag="fault-probe:grace-sleep-pause", fault={"kind": "immediate-pause-in-the-checkpoint-grace-sleep"}, ending="close")
+        out.append(number(sc))
+    return out
+
+
+def resume_replays_nothing(sc, o):
+    bad = []
+    if not any(t[1] == "paused" for t in o["trans"]):
+        bad.append(("did-not-pause-at-the-checkpoint", f"transitions {o['trans']}, returns {[r[:3] for r in o['returns']]}"))
+        return bad
+    mids = [m[3] for m in o["msgs"] if m[3] is not None]
+    dup = sorted({x for x in mids if mids.count(x) > 1})
+    if dup:
+        names = [m[0] for m in o["msgs"] if m[3] in dup]
+        bad.append(("resume-after-pause-at-checkpoint-replays", f"the engine paused at the checkpoint (immediate pause during the grace sleep of a pending deferred pause) and the resume replayed messages #{dup} ({names})"))
+    if o["final_state"] != "idle":
+        bad.append((f"ended-{o['final_state']}", f"returns {[r[:3] for r in o['returns']]}"))
+    return bad
+
+
 def all_scenarios(rng, n):
     a = close_fault_scenarios(rng, n)
     b = teardown_request_scenarios(rng, max(1, n // 3))
@@ -421,7 +458,7 @@ def callback_exception_policy(sc, o):
     return bad
 
 
-FAMILIES = {"stop-dispatch": stop_dispatch_scenarios, "odd-status": odd_status_scenarios, "cross-run-checkpoint": cross_run_checkpoint_scenarios, "list-plan-suspension": list_plan_suspension_scenarios, "pause-hook": pause_hook_scenarios, "close": close_fault_scenarios, "teardown-request": teardown_request_scenarios, "leftover-stage": leftover_stage_scenarios}
+FAMILIES = {"grace-sleep-pause": grace_sleep_pause_scenarios, "stop-dispatch": stop_dispatch_scenarios, "odd-status": odd_status_scenarios, "cross-run-checkpoint": cross_run_checkpoint_scenarios, "list-plan-suspension": list_plan_suspension_scenarios, "pause-hook": pause_hook_scenarios, "close": close_fault_scenarios, "teardown-request": teardown_request_scenarios, "leftover-stage": leftover_stage_scenarios}
 
 
 def run_probes(ctx, res, judges, families, quick, thorough):
